@@ -1,13 +1,79 @@
 NOT_APPLICABLE = {}
+PBT = "property-based testing (proptest TestRunner, shrinking, replay)"
+add("C01", "exploration",
+    "Generated end-to-end worlds (valid layout + link directory) crossed with signer subsets, caller key-set classes, post-signing edits of the signed JSON and signature corruptions; in_toto_verify may return Ok only when the ground-truth model (who signed what, by construction) says every caller key has an intact signature. Each negative case is paired with a control that must verify. Search, not proof.",
+    "ring sound; forged = forgeries the generator can make; edit observability decided by comparing parsed metadata",
+    PBT + "; metamorphic relation (mutate signed content / signatures => must reject) against a by-construction ground-truth model", "DESIGN.md section 5 C01")
+add("C02", "exploration",
+    "Generated worlds with 1-3 faults on chosen link files (unauthorised functionary, key missing from table, stranger, mislabelled, tampered, aliased key-table entry, ...), plus an exhaustive 625-population sub-space; Ok only if every step has enough authorised, intact links per the ground-truth model; controls must verify.",
+    "ring sound; 8-hex prefixes of generated key ids distinct (colliding cases discarded)",
+    PBT + " + bounded-exhaustive enumeration; by-construction ground-truth model with control runs", "DESIGN.md section 5 C02")
+add("C03", "exploration",
+    "Differential test of the per-item rule application (guarded re-export) against a reference rule engine transcribed from the specification and self-tested on the Python-made demo chain; both directions; random rule lists/artifact sets plus exhaustive rule lists of length <=2 (quick) / <=3 (thorough) over a 31-rule alphabet.",
+    "reference engine is the harness' transcription of the spec; normalised relative paths and portable glob subset",
+    PBT + " + bounded-exhaustive enumeration; differential against a reference model", "DESIGN.md section 5 C03 and Appendix A")
+add("C04", "exploration",
+    "Generated signature lists (valid, re-signed, bit-flipped, mislabelled, other content) x authorised lists x thresholds x permutations over all key types, plus an exhaustive small space; only-if and (for one-signature-per-key lists) converse oracle from by-construction ground truth; permutation invariance.",
+    "ring sound", PBT + " + bounded-exhaustive enumeration; ground truth by construction, metamorphic permutation relation", "DESIGN.md section 5 C04")
+add("C05", "exploration",
+    "Single-site edits of signed documents (near-collision string rewrites, key/value shifts, array merges/splits, numbers), bulk collision search over a near-collision alphabet, and JSON value pairs: a stale signature must not verify when parsed values differ; equal Ed25519 signatures only for equal values; distinct values => distinct canonical bytes.",
+    "Ed25519 signature as proxy for signed bytes; observability = library PartialEq on parsed metadata",
+    PBT + "; metamorphic relation (observable edit => signature invalid) and injectivity search", "DESIGN.md section 5 C05")
+add("C06", "exploration",
+    "Valid worlds with the expiry placed at controlled offsets (ms to decades) from the wall clock or from an injected clock, re-spelled in arbitrary UTC offsets / fractions / lower case, top-level and in sub-layouts; expired => must be Err; straddling cases skipped; controls must verify.",
+    "clock hook shadows the wall-clock read (half the cases run with the hook off)",
+    PBT + "; oracle = independent RFC 3339 arithmetic + clock bracket", "DESIGN.md section 5 C06")
+add("C07", "exploration",
+    "Multi-party steps with one dissenting, validly re-signed link (path/digest/algorithm/entry edits in materials or products, dissenter first/middle/last by key id): Ok only if all counted links agree; controls must verify.",
+    "ground truth by construction", PBT + "; metamorphic relation against ground truth", "DESIGN.md section 5 C07")
+add("C08", "fault_enumeration",
+    "Enumerates the stage at which verification fails (9 stages + none) x inspection commands (exit 0/non-zero/not found/killed; file-creating/modifying/deleting ops) in a fresh working directory: pre-inspection failure => Err, no sentinel file, no inspection link file; non-zero exit => Err; exit 0 => inspection rules enforced per the reference engine on an independent before/after snapshot.",
+    "POSIX sh available; worker-private cwd",
+    PBT + " with fault injection per verification stage; sentinel-file side-effect oracle + reference rule engine", "DESIGN.md section 5 C08")
+add("C09", "exploration",
+    "Library-signed blocks over all key types/schemes, 1-3 signers, three construction paths, four wire forms: must parse back and verify with threshold = number of signers; must not verify under an unrelated key, after sampled single-bit flips of the signature, or under the same material declared with another scheme.",
+    "ring sound; bit flips sampled", PBT + "; round-trip oracle + negative metamorphic relations", "DESIGN.md section 5 C09")
 add("C10", "exploration",
-    "Generated JSON values in several textual spellings plus every Unicode scalar value; the canonical bytes are compared across spellings and decoded by an independent strict scanner (round trip + validity predicate). Search, not proof: holds on the reported number of distinct values.",
+    "Generated JSON values in several textual spellings plus every Unicode scalar value; the canonical bytes are compared across spellings and decoded by an independent strict scanner (round trip + validity predicate); non-integer literals must be rejected.",
     "serde_json trusted as reader of generated text; scanner and decimal arithmetic are the harness' own",
-    "property-based testing (proptest) + bounded enumeration; round-trip and validity-predicate oracle", "DESIGN.md section 5 C10")
+    PBT + " + bounded enumeration; round-trip and validity-predicate oracle", "DESIGN.md section 5 C10")
 add("C11", "exploration",
     "Generated links/layouts with adversarial text in every string field; signatures made with ring over an independent OLPC encoder must verify in the library and library Ed25519 signatures must equal ring's over those bytes; key ids compared with the reference formula. The OLPC model is anchored to Python-signed fixtures by a self test.",
     "OLPC encoder transcribed from securesystemslib; ring trusted",
-    "property-based testing (proptest) + exhaustive two-character table; differential against reference encoder", "DESIGN.md section 5 C11")
+    PBT + " + exhaustive two-character table and all Unicode scalars; differential against reference encoder", "DESIGN.md section 5 C11")
+add("C12", "exploration",
+    "Keys of all types through every construction path (raw, DER SPKI from the harness' RFC encoders cross-checked with OpenSSL output, PEM, PKCS#8 derivation, JSON), synthetic material, and layout key tables filing keys under wrong ids: key id == reference formula, equal across paths, JSON round trip, SPKI import/export identity, no aliased table entry survives parsing (end-to-end aliasing attack in C02).",
+    "reference key-id formula anchored to the Python-made fixture; DER writers anchored to OpenSSL 3",
+    PBT + "; differential against reference encoders, round-trip oracle", "DESIGN.md section 5 C12")
+add("C13", "exploration",
+    "Worlds where a threshold<=1 step has several differing valid links (optionally with a rule only some violate), files created in generated order: 16 in-process repetitions (fresh hash keys per map) + 2 fresh processes (64 + 8 thorough) must give one verdict and one summary.",
+    "hash seeds sampled by repetition (miss probability 2^-17 per world for a fair flip)",
+    PBT + "; invariant over repetitions / fresh processes (determinism oracle)", "DESIGN.md section 5 C13")
+add("C14", "exploration",
+    "Mutational (bit flips, truncation, dictionary insertion, splices over generated documents, Python-made fixtures, OpenSSL-made DER/PEM) and structured adversarial inputs (multi-byte key ids, weird step names, non-normalised paths, extreme numbers, extra files) offered to every parser, key importer, block verification, rule application and in_toto_verify under catch_unwind; worker death is attributed through a saved current-case file.",
+    "non-termination only visible as time-out (exit 2); thorough tier adds libFuzzer targets when built",
+    PBT + " + mutation-based fuzzing from a seed corpus with dictionary; crash oracle", "DESIGN.md section 5 C14")
+add("C15", "exploration",
+    "Two- (thorough three-) level delegation trees with one inner fault (wrong/absent signer, expiry, misplaced links, inner link faults, inner rule failure, edited inner layout), optional MATCH ties to the delegated step and requested step names: Ok only if the recursive ground-truth model finds no violated condition; on Ok the summary equals first-step materials / last-step products, command, byproducts.",
+    "ground truth by construction + reference rule engine",
+    PBT + "; recursive by-construction model, summary equality oracle, controls", "DESIGN.md section 5 C15")
+add("C16", "exploration",
+    "Builder-made layouts/links/blocks and harness-rendered wire documents: parse(ser(v))==v (compact, pretty), re-serialisation byte-identical over 8 freshly parsed instances, no accepted field altered, edge expiry spellings.",
+    "consistent key tables; expiry within 0000..9999 at whole seconds; hash orders sampled by repetition",
+    PBT + "; round-trip oracle", "DESIGN.md section 5 C16")
+add("C17", "exploration",
+    "Valid and edited documents of 18 types in random spellings (escapes, whitespace, order), optionally truncated: seven decoding channels (str, slice, chunked reader, JSON tree, Json helpers) must all fail or all yield equal values.",
+    "no duplicate member names (serde_json channel difference)",
+    PBT + "; differential between decoding channels", "DESIGN.md section 5 C17")
+add("C18", "exploration",
+    "Generated directory trees (sizes around the 1024-byte buffer, odd names, absolute/relative symlinks, chains, cycles), argument lists, strip prefixes, algorithms, and shell commands: record_artifacts / in_toto_run compared with an independent walk and the harness' own SHA-2.",
+    "dangling symlinks and non-UTF-8 names excluded; SHA-2 validated against NIST vectors and ring",
+    PBT + "; differential against an independent walk + digest implementation", "DESIGN.md section 5 C18")
+add("C19", "exploration",
+    "Statement/predicate documents with every optional-member combination, matching and mismatching declared types, tree edits: exactly-one-format, version(), canonical round trip incl. timestamps, declared predicate type == embedded format, from_meta carries link content over.",
+    "concrete format types via guarded re-exports",
+    PBT + "; round-trip and consistency oracles", "DESIGN.md section 5 C19")
 add("C20", "exploration",
     "Generated (type,payload) pairs, near-collision pairs and mutated encodings; exhaustive decoder inputs over a framing alphabet up to a bounded length. Round trip, reference-encoder differential, injectivity on generated pairs, no-panic on decode.",
     "reference PAE transcribed from the DSSE spec; pack/unpack reached through the verif-hooks re-export",
-    "property-based testing (proptest) + bounded-exhaustive enumeration; round-trip / differential oracle", "DESIGN.md section 5 C20")
+    PBT + " + bounded-exhaustive enumeration; round-trip / differential oracle", "DESIGN.md section 5 C20")
